@@ -1,13 +1,172 @@
-"""Self tests of the simulator (not registered checks)."""
-import os, sys
+"""Self tests of the simulator itself (not registered checks).
+
+  ./check --selftest determinism      replay determinism of the simulator
+  ./check --selftest digests          (internal) print run digests as JSON
+  ./check --selftest mutants          sensitivity: known-bad and known-benign edits of a scratch copy
+"""
+import os
+import sys
+import json
+import time
+import shutil
+import hashlib
+import tempfile
+import subprocess
+
+from . import gen, model
+from .coord import Batch, Farm, HarnessFailure, evaluate, PY, VERIF, repo_path
+
 
 def setup_check():
-    import subprocess
-    from .coord import PY, repo_path, VERIF
     r = subprocess.run([PY, "-c", "import antlr4, networkx, igraph, scipy, numpy; print('deps ok')"], capture_output=True, text=True)
     print(r.stdout.strip() or r.stderr.strip())
     return 0 if r.returncode == 0 else 2
 
+
+def _specs(master, n, workers=None):
+    """n specs per property from the quick pools (same pool for all three)."""
+    farm = Farm(workers=workers)
+    b = Batch("C14", "quick", master, farm=farm, verbose=False)
+    b.build_pool()
+    specs = []
+    for prop in ("C14", "C12", "C16"):
+        for i in range(n):
+            r = gen.H(master, "selftest", prop, i)
+            specs.append(gen.gen_spec(r, prop, b.pool, b.HS))
+    return b, specs
+
+
+def _digests(b, specs, copies, fresh=False, churn=False):
+    jobs = []
+    for c in range(copies):
+        for k, s in enumerate(specs):
+            s2 = dict(s)
+            s2["full"] = False
+            jobs.append({"job": f"{k}:{c}", "hashseed": s["hashseed"], "spec": s2, "wall_limit": 240})
+    if churn:
+        # interleave allocation churn in the templates so that forks happen at
+        # different heap states
+        extra = []
+        for k, hs in enumerate(sorted({s["hashseed"] for s in specs})):
+            extra.append({"job": f"churn{k}", "hashseed": hs, "cmd": "churn", "n": 20000 + 1000 * k, "spec": None})
+        jobs = extra + jobs
+    res = b.farm.run(jobs, fresh_templates=fresh)
+    out = {}
+    for j in jobs:
+        if j.get("cmd"):
+            continue
+        ans = res[j["job"]]
+        if ans["status"] != "ok":
+            out[j["job"]] = f"ERROR {ans['status']} {ans.get('error', '')[-300:]}"
+        elif ans["record"]["errors"]:
+            out[j["job"]] = f"ERROR {ans['record']['errors'][0][-300:]}"
+        else:
+            r = ans["record"]
+            out[j["job"]] = f"{r['log']} steps={r['steps']} sw={r['switches']} ev={r['n_events']}"
+    return out
+
+
+def digests_main(master, n):
+    b, specs = _specs(master, n)
+    d = _digests(b, specs, 1)
+    spec_hash = hashlib.sha256(json.dumps(specs, sort_keys=True).encode()).hexdigest()
+    print("DIGESTS " + json.dumps({"specs": spec_hash, "runs": d}, sort_keys=True))
+    return 0
+
+
+def determinism(master, tier):
+    n = 100 if tier == "quick" else 1000
+    t0 = time.monotonic()
+    b, specs = _specs(master, n)
+    print(f"determinism selftest: {len(specs)} specs (C14/C12/C16 generators), seed {master}")
+    a = _digests(b, specs, 2, fresh=True)  # two copies, different slots, fresh templates
+    bad = 0
+    errs = [k for k, v in a.items() if v.startswith("ERROR")]
+    for k in range(len(specs)):
+        if a[f"{k}:0"] != a[f"{k}:1"]:
+            bad += 1
+            print(f"  MISMATCH same-batch copies: spec {k} seed {specs[k]['seed']}: {a[f'{k}:0']} vs {a[f'{k}:1']}")
+    print(f"  phase 1 (16 workers, 2 copies in different slots): {bad} mismatches, {len(errs)} errors [{time.monotonic() - t0:.0f}s]")
+    # late forks of busy templates
+    c = _digests(b, specs, 1, fresh=False, churn=True)
+    bad2 = sum(1 for k in range(len(specs)) if c[f"{k}:0"] != a[f"{k}:0"])
+    print(f"  phase 2 (late forks of reused, churned templates): {bad2} mismatches [{time.monotonic() - t0:.0f}s]")
+    # other worker count, coordinator under another hash seed, fresh interpreter
+    env = dict(os.environ, VERIF_COORD_HASHSEED="424242", VERIF_WORKERS="4", VERIF_SEED=str(master), VERIF_SELFTEST_N=str(n))
+    r = subprocess.run([os.path.join(VERIF, "check"), "--selftest", "digests"], capture_output=True, text=True, env=env)
+    line = [l for l in r.stdout.splitlines() if l.startswith("DIGESTS ")]
+    bad3 = -1
+    if line:
+        other = json.loads(line[0][8:])
+        mine_hash = hashlib.sha256(json.dumps(specs, sort_keys=True).encode()).hexdigest()
+        spec_same = other["specs"] == mine_hash
+        bad3 = sum(1 for k in range(len(specs)) if other["runs"].get(f"{k}:0") != a[f"{k}:0"])
+        print(f"  phase 3 (fresh coordinator, PYTHONHASHSEED=424242, 4 workers): specs identical: {spec_same}; {bad3} mismatches [{time.monotonic() - t0:.0f}s]")
+        if not spec_same:
+            bad3 += 1
+    else:
+        print("  phase 3 failed to run:", r.stdout[-500:], r.stderr[-500:])
+    ok = bad == 0 and bad2 == 0 and bad3 == 0 and not errs
+    for k in errs[:5]:
+        print("  ", k, a[k])
+    print("DETERMINISM", "OK" if ok else "FAILED")
+    return 0 if ok else 1
+
+
+# --------------------------------------------------------------------------
+# sensitivity: mutants
+# --------------------------------------------------------------------------
+def _scratch_copy():
+    base = tempfile.mkdtemp(prefix="tucan-scratch-", dir=os.environ.get("TMPDIR", "/tmp"))
+    src = repo_path()
+    shutil.copytree(os.path.join(src, "tucan"), os.path.join(base, "tucan"))
+    os.makedirs(os.path.join(base, "tests"))
+    for d in ("molfiles", "molfiles_v2000"):
+        if os.path.isdir(os.path.join(src, "tests", d)):
+            shutil.copytree(os.path.join(src, "tests", d), os.path.join(base, "tests", d))
+    return base
+
+
+def mutants(master, tier, only=None):
+    mdir = os.path.join(VERIF, "selftest_mutants")
+    index = json.load(open(os.path.join(mdir, "index.json")))
+    failures = 0
+    for m in index:
+        if only and m["name"] not in only:
+            continue
+        scratch = _scratch_copy()
+        try:
+            r = subprocess.run(["patch", "-p1", "-s", "-d", scratch, "-i", os.path.join(mdir, m["patch"])], capture_output=True, text=True)
+            if r.returncode != 0:
+                print(f"{m['name']}: PATCH FAILED {r.stdout} {r.stderr}")
+                failures += 1
+                continue
+            for prop in m["checks"]:
+                env = dict(os.environ, VERIF_REPO=scratch, VERIF_SEED=str(master), VERIF_MIN_RUNS="60", VERIF_MIN_SECONDS="120")
+                t0 = time.monotonic()
+                r = subprocess.run([os.path.join(VERIF, "check"), prop, "--runs", str(m.get("runs", 240)), "--quiet", "--no-evidence"], capture_output=True, text=True, env=env)
+                viol = [l for l in r.stdout.splitlines() if l.startswith("VIOLATION")]
+                expect = m["expect"].get(prop, "violation")
+                got = "violation" if (r.returncode == 1 and viol) else ("clean" if r.returncode == 0 else f"error({r.returncode})")
+                status = "ok" if got == expect else "UNEXPECTED"
+                if status != "ok":
+                    failures += 1
+                print(f"{m['name']:40s} {prop}: expected {expect:9s} got {got:9s} {status} [{time.monotonic() - t0:.0f}s] {viol[:1]}")
+                if status != "ok":
+                    print(r.stdout[-1500:], r.stderr[-800:])
+        finally:
+            shutil.rmtree(scratch, ignore_errors=True)
+    print("MUTANTS", "OK" if failures == 0 else f"FAILED ({failures})")
+    return 0 if failures == 0 else 1
+
+
 def run(name, master, tier):
-    print("not implemented", name)
+    if name == "determinism":
+        return determinism(master, tier)
+    if name == "digests":
+        return digests_main(master, int(os.environ.get("VERIF_SELFTEST_N", "100")))
+    if name.startswith("mutants"):
+        only = name.split(":", 1)[1].split(",") if ":" in name else None
+        return mutants(master, tier, only)
+    print("unknown selftest", name)
     return 2
